@@ -164,6 +164,11 @@ notes={
  'C17-S':'+ tails of 270..1500 characters behind 1 path in 25 (near must be long)',
  'C18-S':'+ member names that begin or end with a blank (the escaped blank as the last character of the path)',
  'C20-S':'+ zero-size non-nil values of different types (one address), paired on purpose',
+ 'C05-T':'+ history operation "rebind": other functions registered under the same names on the Config the path was parsed with; later calls of the parsed function are compared with SPEC and with a fresh Retrieve on an equal Config',
+ 'C10-T':'+ every document with an empty array/object is evaluated again with nil slices / nil maps as its empty containers (still arrays and objects, never null)',
+ 'C14-T':'+ accessor mode: every result is read twice through Get before the call log is compared; what Get hands out is compared with the chained return values',
+ 'C16-T':'+ a kept parsed function whose filter reads the member from the root, the member replaced in place between four calls',
+ 'C19-T':'+ Config modification kind 3: an aggregate function alone re-registered under its name (no filter function set in the same step)',
 }
 rows=[]
 for d in sorted(glob.glob('/verif/seeded/C*-*')):
